@@ -324,9 +324,10 @@ def fam_lists(r, c):
         return [[b"lmove", k(), k(), randcase(r, r.choice([b"left", b"right", b"up\r\n"])), randcase(r, r.choice([b"left", b"right"]))]]
     # BLPOP/BRPOP only right after a push on its first key: the reply carries the key name, and
     # the command returns at its first poll (100 ms of real time, hence rare); a wrong-typed key
-    # answers WRONGTYPE at the first poll as well
+    # answers WRONGTYPE at the first poll as well.  The timeout is long on purpose: on a loaded
+    # machine a 1 s timer could be ready together with the first tick and Go's select may take it.
     key = k()
-    return [[b"rpush", key, e(), e()], [r.choice([b"blpop", b"brpop"]), key] + ([k()] if r.random() < 0.3 else []) + [b"1"]]
+    return [[b"rpush", key, e(), e()], [r.choice([b"blpop", b"brpop"]), key] + ([k()] if r.random() < 0.3 else []) + [b"20"]]
 
 
 KNOWN = [b"set", b"get", b"del", b"keys", b"mset", b"mget", b"getrange", b"setrange", b"incrby", b"rename", b"append", b"type",
